@@ -9,7 +9,16 @@ open Scrapli Scrapli.Chan Scrapli.Timeout
 
 namespace C05
 
-def hexListList (s : String) : Option (List (List Bytes)) := (s.splitOn "/").mapM hexList
+/-- delivered schedule per phase: chunks (hex) and silences `~N` (N ticks without an arrival: the
+    device paced its output), phases separated by `/`, `.` = nothing -/
+def schedItem (s : String) : Option Sched :=
+  if s.startsWith "~" then (s.drop 1).toNat?.map fun n => List.replicate n none
+  else (fromHex s).map fun b => [some b]
+
+def schedOf (s : String) : Option Sched :=
+  if s == "." then some [] else ((s.splitOn ",").mapM schedItem).map List.flatten
+
+def hexListList (s : String) : Option (List Sched) := (s.splitOn "/").mapM schedOf
 
 def showErr : ErrClass → String
   | .timeout => "timeout" | .connection => "connection" | .auth => "auth" | .privilege => "privilege"
@@ -66,7 +75,7 @@ def lower (b : UInt8) : UInt8 := if 65 ≤ b && b ≤ 90 then b + 32 else b
 
 def containsFold (lit : Bytes) (b : Bytes) : Bool := isInfix (lit.map lower) (b.map lower)
 
-def mkSt (deliv : List (List Bytes)) : St := { rs := deliv.map fun cs => cs.map some }
+def mkSt (deliv : List Sched) : St := { rs := deliv }
 
 structure Ans where
   dom : Bool
@@ -78,7 +87,7 @@ structure Ans where
 def showAns (a : Ans) : String := s!"{b2s a.dom} {a.spec} {a.model} {a.t} {a.dl}"
 
 /-- one operation of a single kind: spec from the full streams, model from the delivered chunks -/
-def answer (kind : OpKind) (d : Nat) (prog : Prog Bytes) (fulls : List Bytes) (deliv : List (List Bytes))
+def answer (kind : OpKind) (d : Nat) (prog : Prog Bytes) (fulls : List Bytes) (deliv : List Sched)
     (k : Nat) : Ans :=
   let r := run d prog (mkSt deliv)
   let model := showExcept (toPublic kind r.1)
